@@ -151,7 +151,7 @@ def simulate(tree, root_fnarg=None, root_ctx=None):
             elif k == "ctxcall":
                 sub(step[1], step[2], None, dict(step[3]))
             elif k == "prevent":
-                sub(step[1], step[2], None, "inherit", True)
+                sub(step[1], step[2], None, dict(step[3]) if len(step) > 3 else "inherit", True)
         return e
 
     visit(tree["nodes"][0]["fn"], 0, root_fnarg, root_ctx or None)
